@@ -325,6 +325,10 @@ void profile_cfg_more(const std::string &prof, uint64_t seed, RunCfg &c, Rng &r)
     c.names.push_back("!192.0.2.55"); c.names.push_back("!2001:db8::55"); c.names.push_back("!localhost"); c.names.push_back("!foo.localhost");
     c.sock_create_cb = 0; c.sock_config_cb = 0;
     c.min_delay = 200; c.max_delay = 20000;
+    if (r.chance(0.3)) c.knobs["token_style"] = 2;   // token inside the first label: single-label names stay single-label
+    // in half of the runs a question can fail for good (SERVFAIL / REFUSED from every server on every try), independently per
+    // family: the surviving family's addresses must still be returned
+    if (r.chance(0.5)) c.knobs["c13_question_failures"] = 1;
   } else if (prof == "C12") {
     c.allow_cancel_in_cb = 0;
     c.knobs["token_style"] = 2;
@@ -1257,7 +1261,30 @@ static void c13_done(Run &run, Req &r) {
     return;
   }
   if (r.kind != K_GETADDRINFO && r.kind != K_GETHOSTBYNAME) return;
-  if (r.status != ARES_SUCCESS) return;
+  if (r.status != ARES_SUCCESS) {
+    // "none ... dropped": a lookup may not fail once the library has accepted an answer that carries addresses of a requested
+    // family for one of its candidate names (the other family failing, or later steps finding nothing, does not undo that)
+    if (r.status == ARES_ECANCELLED || r.status == ARES_EDESTRUCTION || r.status == ARES_ENOMEM || !run.cfg.use_tokens || r.name.empty() || r.name[0] == '!') return;
+    int64_t base_to = (run.eff_timeout_ms > 0 ? run.eff_timeout_ms : 2000) * 1000;
+    for (auto &rs : W.resps) {
+      if (rs.tx < 0 || rs.forged || rs.tainted || rs.tc || rs.rcode != 0 || rs.acceptable != 1 || rs.read_times.empty() || rs.addrs.empty()) continue;
+      const Tx &t = W.txs[(size_t)rs.tx];
+      if (t.token != r.token || t.msg.qd.empty()) continue;
+      int qt = t.msg.qd[0].type;
+      if ((qt != 1 && qt != 28) || (r.family == AF_INET && qt != 1) || (r.family == AF_INET6 && qt != 28)) continue;
+      // read while its query was certainly still waiting for it (before the attempt could expire) and before the lookup ended
+      if (rs.read_times[0] - t.t >= base_to || (r.t_done >= 0 && rs.read_times[0] > r.t_done)) continue;
+      bool later_tx = false;   // the reply must answer the latest transmission of that question (an earlier one may have been given up)
+      for (size_t k = (size_t)rs.tx + 1; k < W.txs.size(); k++) { const Tx &x = W.txs[k]; if (x.token == t.token && x.qname_lc == t.qname_lc && !x.msg.qd.empty() && x.msg.qd[0].type == qt && x.seq < rs.read_seqs[0]) later_tx = true; }
+      if (later_tx) continue;
+      bool has = false; for (auto &a : rs.addrs) if ((qt == 1 && a.first.size() == 4) || (qt == 28 && a.first.size() == 16)) has = true;
+      if (!has) continue;
+      run.violate("C13", "answer_dropped", std::string(req_kind_name[r.kind]) + " " + r.name + " family " + (r.family == AF_INET ? "INET" : r.family == AF_INET6 ? "INET6" : "UNSPEC") + " failed with " + ares_status_name(r.status) + " although the accepted answer to " + t.qname_lc + " type " + std::to_string(qt) + " carried " + std::to_string(rs.addrs.size()) + " address(es)");
+      return;
+    }
+    run.note("failed_lookup_checked_for_dropped_answers");
+    return;
+  }
   int fam = r.family;
   std::vector<std::string> got;
   for (auto &a : r.got.addrs) got.push_back(a.first);
@@ -2338,6 +2365,19 @@ void profile_attach_more(Run &run) {
         r.note(W.servers[i].regress_active ? "cookie_support_withdrawn" : "cookie_support_restored");
       }
     };
+  }
+  if (p == "C13" && run.cfg.knob("c13_question_failures", 0)) {
+    run.world_ready.push_back([](Run &r) {
+      (void)r;
+      W.beh_override = [](const Tx &t) -> int {
+        if (t.msg.qd.empty() || (t.msg.qd[0].type != 1 && t.msg.qd[0].type != 28)) return -1;
+        Rng br(hash_mix(hash_str(W.beh_key ^ 0xC13, t.qname_lc), (uint64_t)t.msg.qd[0].type));
+        uint64_t x = br.below(100);
+        if (x < 6) return B_SERVFAIL;
+        if (x < 10) return B_REFUSED;
+        return -1;   // the run's ordinary per-attempt behaviour
+      };
+    });
   }
   if (p == "C12") {
     run.extra_step = c12_steps;
